@@ -1,12 +1,15 @@
 (* C14/Corollaries.v — the property statements as corollaries of the invariants, and the scenarios. *)
 From Coq Require Import Lia.
-From MV Require Import Base.Prelude C14.Model C14.Spec C14.Proofs1 C14.Proofs2.
+From MV Require Import Base.Prelude C14.Model C14.Spec C14.Proofs1 C14.Proofs2 C14.Proofs3 C14.Proofs4.
 Open Scope N_scope.
 
 Lemma inv1_any k all l : Inv1 false (run_st k all l).
 Proof. apply inv1_run; [apply inv1_init|discriminate]. Qed.
 Lemma inv1_nocut k all l : no_cert_cut l -> Inv1 true (run_st k all l).
 Proof. intros H. apply inv1_run; [apply inv1_init|auto]. Qed.
+
+Lemma chain_any k all l : chain (s_certs (run_st k all l)).
+Proof. destruct (inv1_any k all l) as (A & _). exact A. Qed.
 
 (* T1 *)
 Lemma t1_any k all l : epochs_ok (s_certs (run_st k all l)) (tp_epoch (s_env (run_st k all l))).
@@ -49,6 +52,58 @@ Proof. destruct (inv1_any k all l) as (_ & _ & C & D & _). auto. Qed.
 Lemma t8 k all l : no_crash l -> ents_ok (s_ents (run_st k all l)) (s_certs (run_st k all l)) /\
   NoDup (map se_ent (s_ents (run_st k all l))).
 Proof. intros _. apply t8_any. Qed.
+
+(* T4 *)
+Lemma inv2_any k all l : Inv2 (run_st k all l).
+Proof. apply inv12_run; [apply inv1_init|apply inv2_init]. Qed.
+Lemma t4_any k all l : keys_ok (s_certs (run_st k all l)) (s_regs (run_st k all l)).
+Proof. destruct (inv2_any k all l) as (K & _). exact K. Qed.
+Lemma t4 k all l : no_crash l -> keys_ok (s_certs (run_st k all l)) (s_regs (run_st k all l)).
+Proof. intros _. apply t4_any. Qed.
+Lemma t4_support k all l : no_crash l -> Inv2 (run_st k all l).
+Proof. intros _. apply inv2_any. Qed.
+
+(* T6 with the membership of the stored signers, in reachable states *)
+Lemma t6_full k all l e :
+  (length (s_certs (run_st k all l)) < length (s_certs (astep k (run_st k all l) e)))%nat ->
+  is_cycle e /\
+  exists cur x o crt,
+    s_rt (run_st k all l) = Signing cur x /\ en_epoch x = tp_epoch (s_env (run_st k all l)) /\
+    find_om (s_oms (run_st k all l)) x = Some o /\
+    om_cert o = false /\ om_exp o = false /\ om_due o = false /\ quorum k (om_sigs o) = true /\
+    (forall p ix, In (p, ix) (om_sigs o) ->
+                  mem p (reg_at (s_regs (run_st k all l)) (en_epoch x - 1)) = true) /\
+    s_certs (astep k (run_st k all l) e) = s_certs (run_st k all l) ++ [crt] /\
+    c_ent crt = Some x /\ c_epoch crt = en_epoch x.
+Proof.
+  set (s := run_st k all l). intros H. destruct (t6_any k s e H) as [C S]. split; [exact C|].
+  destruct (inv2_any k all l) as (_ & _ & _ & Om). fold s in Om.
+  destruct S as (cur & x & R & Hx & Lt & (o & d & j & p & F & C1 & C2 & D & C3 & Q & M & Np & S)).
+  cbn zeta in S. destruct S as (L & Env & Cs & _). sc.
+  unfold mark_expired in F. rewrite find_om_upd in F by (intros o0; destruct (om_due o0); reflexivity).
+  destruct (find_om (s_oms s) x) as [o0|] eqn:F0; cbn [option_map] in F; [|discriminate].
+  injection F as <-. destruct (find_om_ent _ _ _ F0) as [E0 I0]. rewrite E0, ent_eqb_refl in *.
+  destruct (Om o0 I0) as (_ & _ & _ & O4). rewrite E0 in O4.
+  destruct (om_due o0) eqn:Du; cbn in C2; [discriminate|].
+  eexists cur, x, o0, _. split; [exact R|]. split; [exact Hx|]. split; [exact F0|].
+  split; [exact C1|]. split; [exact C2|]. split; [exact Du|]. split; [exact Q|]. split; [exact O4|].
+  split; [exact Cs|]. split; reflexivity.
+Qed.
+Lemma t6_full_nocrash k all l e : no_crash l -> match e with Crash _ => False | _ => True end ->
+  (length (s_certs (run_st k all l)) < length (s_certs (astep k (run_st k all l) e)))%nat ->
+  e = Tick /\
+  exists cur x o crt,
+    s_rt (run_st k all l) = Signing cur x /\ en_epoch x = tp_epoch (s_env (run_st k all l)) /\
+    find_om (s_oms (run_st k all l)) x = Some o /\
+    om_cert o = false /\ om_exp o = false /\ om_due o = false /\ quorum k (om_sigs o) = true /\
+    (forall p ix, In (p, ix) (om_sigs o) ->
+                  mem p (reg_at (s_regs (run_st k all l)) (en_epoch x - 1)) = true) /\
+    s_certs (astep k (run_st k all l) e) = s_certs (run_st k all l) ++ [crt] /\
+    c_ent crt = Some x /\ c_epoch crt = en_epoch x.
+Proof.
+  intros _ Hc H. destruct (t6_full k all l e H) as [C S]. split; [|exact S].
+  destruct e; cbn in C, Hc; try contradiction. reflexivity.
+Qed.
 
 (* ---------- scenarios ---------- *)
 Definition x2 : entity := {| en_ty := MSD; en_epoch := 2; en_imm := 0 |}.
